@@ -18,7 +18,7 @@ func (d DirectIOFactory) CreateNewReader(filePath string, bufSize int) (*os.File
 	}
 
 	block := directio.AlignedBlock(bufSize)
-	return readFile, NewCountingByteReader(NewReaderBuf(readFile, block)), nil
+	return readFile, NewCountingByteReader(NewAlignedReaderBuf(readFile, block)), nil
 }
 
 func (d DirectIOFactory) CreateNewWriter(filePath string, bufSize int) (*os.File, WriteSeekerCloserFlusher, error) {
